@@ -20,6 +20,9 @@ def run(ctx):
     query_argument(ctx, "R4")
     pathsplit(ctx, "R5")
     protocol_laws(ctx, "R6")
+    from . import common_state as ST
+    ST.rule_cache_keys(ctx, "R7")
+    ST.rule_one_shot_iterators(ctx, "R8")
     ctx.rule("R5s", "urlpathsplit / get_query_argument parse through safe_urlsplit, which keeps the url as it is exactly when PROTOCOL_RE matches at its start")
     from .common_url import rule_safe_urlsplit
     rule_safe_urlsplit(ctx, "R5s")
